@@ -205,7 +205,7 @@ def run(chk):
         return chk.finish()
 
     # ---- A ---------------------------------------------------------------------------------------
-    n_a = 160 if chk.tier == "quick" else 1500
+    n_a = 160 if chk.tier == "quick" else 8000
     progs = []
     fixed = [[("loop", 0, [("block", [("break",)])])], [("call", [("block", [("return",)])])], [("gen", [("log", 1)])],
              [("loop", 2, [("try", [("block", [("log", 1), ("continue",)])], [], [("block", [("log", 2)])]), ("break",)]),
@@ -268,7 +268,7 @@ def run(chk):
             if path is None and ("await " in src or "import " in src or "export " in src):
                 continue
             series.append(("corpus:%s:%s" % (name, "module" if path else "script"), {"src": src, "path": path}))
-    n_gen = 40 if chk.tier == "quick" else 600
+    n_gen = 40 if chk.tier == "quick" else 2000
     for i in range(n_gen):
         g = genprog.Gen(rng, features={}, ts=True)
         series.append(("generated:%d" % i, {"src": g.program(5, 3), "path": "/c14_gen_%d.ts" % i}))
